@@ -20,8 +20,8 @@ BOUNDS = {'quick': (6, 7, 60), 'thorough': (8, 10, 220)}
 EXHAUSTIVE = {'quick': True, 'thorough': True}
 
 
-HIGH = {'quick': [(1, 11), (2, 11), (1, 13), (2, 13), (1, 16), (2, 16), (9, 2), (10, 2), (12, 1), (17, 1)],
-        'thorough': [(N, d) for N in (1, 2) for d in range(11, 19)] + [(3, 11), (3, 12), (9, 2), (10, 2), (12, 2), (17, 2), (9, 3), (33, 1)]}
+HIGH = {'quick': [(1, 11), (2, 11), (1, 13), (2, 13), (1, 16), (2, 16), (9, 2), (10, 2), (12, 1), (17, 1), (64, 1), (70, 1)],          # 64: NumPy's limit of array dimensions
+        'thorough': [(N, d) for N in (1, 2) for d in range(11, 19)] + [(3, 11), (3, 12), (9, 2), (10, 2), (12, 2), (17, 2), (9, 3), (33, 1), (64, 1), (65, 1), (130, 1)]}
 
 
 def pairs(tier):
@@ -30,8 +30,9 @@ def pairs(tier):
 
 
 def tol(d):
-    """the alternating sums behind gamma(i,j) lose about half a digit per degree beyond 10 on the pinned tree
-    (measured: 4e-11 at d=11, 4e-10 at 13, 9e-9 at 16, 1e-7 at 18); below that 1e-10"""
+    """the level the pinned tree reaches: the alternating sums behind gamma(i,j) lose about half a digit per degree beyond 10
+    (measured: 4e-11 at d=11, 4e-10 at 13, 9e-9 at 16, 1e-7 at 18).  Errors between TAU and this level are reported as the known
+    finding F-C15-high-degree-accuracy, errors above it as violations"""
     return TAU if d <= 10 else Fraction(3, 10 ** 10) * Fraction(10) ** ((d - 10 + 1) // 2)
 
 
@@ -51,8 +52,13 @@ MIN_CASES_PER_SHARD = 2
 
 
 def compositions(N, d):
-    """all N-tuples of non-negative ints summing to d (independent enumeration)"""
-    return [c for c in itertools.product(range(d + 1), repeat=N) if sum(c) == d]
+    """all multi-indices of N non-negative integers with sum d (stars and bars: cost proportional to their number, also for N = 130)"""
+    if N == 1:
+        return [(d,)]
+    out = []
+    for first in range(d + 1):
+        out += [(first,) + rest for rest in compositions(N - 1, d - first)]
+    return out
 
 
 def run_case(ctx, case):
@@ -84,11 +90,17 @@ def _gamma(ctx, N, d):
     # N and d in the spellings a caller has at hand: Python ints, elements of integer arrays of any width
     sp = [int, np.int64, np.int32, np.int16, np.int8, np.uint8][(N * 7 + d * 3) % 6]
     Ns, ds = (sp(N), sp(d)) if (N < 100 and d < 100) else (N, d)
-    g1, r1 = EI.generate_Gamma_and_rays(Ns, ds)
+    try:
+        g1, r1 = EI.generate_Gamma_and_rays(Ns, ds)
+    except Exception as e:
+        ctx.violation('gamma_identity:raises', {'N': N, 'd': d, 'spelling': getattr(sp, '__name__', str(sp)), 'error': repr(e)[:200]}); return
     first = (np.array(g1, copy=True), np.array(r1, copy=True))
     if isinstance(g1, np.ndarray) and isinstance(r1, np.ndarray) and g1.flags.writeable and r1.flags.writeable:
         g1 *= 3.0; r1 += 1.0            # what a caller may do with its own result; must not influence the next request
-    Gamma, rays = EI.generate_Gamma_and_rays(N, d)
+    try:
+        Gamma, rays = EI.generate_Gamma_and_rays(N, d)
+    except Exception as e:
+        ctx.violation('gamma_identity:raises', {'N': N, 'd': d, 'request': 'repeat', 'error': repr(e)[:200]}); return
     Gamma = np.asarray(Gamma); rays = np.asarray(rays)
     NJ = len(want)
     # the request right after the failed calls and the repeated one are both answers the property speaks about
@@ -117,6 +129,7 @@ def _identity(ctx, N, d, J, want, got, Gamma, rays, which):
     S = G.dot(V)                    # S[i,a] * 1/den = sum_j Gamma[i,j] ray_j^alpha_a
     Sabs = np.abs(G).dot(V)
     worst = Fraction(0)
+    lost = False
     for i in range(NJ):
         for a in range(NJ):
             delta = den if i == a else 0
@@ -130,6 +143,12 @@ def _identity(ctx, N, d, J, want, got, Gamma, rays, which):
             q = Fraction(err, scale)
             if q > worst:
                 worst = q
+            if q > TAU and not lost:
+                # within the (degree-dependent) level the pinned tree reaches, but beyond rounding: reported once per request as the
+                # known loss of accuracy at high degree (gamma() sums an alternating series in floating point)
+                lost = True
+                ctx.violation('gamma_identity:accuracy-lost-at-high-degree', {'N': N, 'd': d, 'request': which, 'i': got[i], 'alpha': got[a],
+                                                                              'err_over_scale': float(q), 'level_of_the_pinned_tree': float(tol(d))})
     ctx.evaluations += NJ * NJ - 1
     ctx.ok('gamma_identity', ('gamma', N, d, which), noise=float(worst),
            sample={'N': N, 'd': d, 'multi_indices': NJ, 'identities_checked': NJ * NJ, 'max_err_over_scale': float(worst)})
